@@ -4,8 +4,20 @@ from .. import gen, oracles, tablecheck
 CLAIM = True
 MODULE = "SysLoss.Props.C05"
 THEOREMS = ["SysLoss.C05." + t for t in (
-    "pri_first_live", "mux_core", "mux_volt", "mux_curr", "mux_dead", "mux_current_attribution", "single_parent_share", "mux_row_reports_selected")]
+    "pri_first_live", "mux_core", "mux_volt", "mux_curr", "mux_dead", "mux_current_attribution", "single_parent_share", "mux_row_reports_selected")] + [
+    # Props/C05System: the property end to end, on the cells of the table the model assembles for a whole well-formed system
+    "SysLoss.C05S." + t for t in (
+    "rowN_eq", "rowN_unique", "row_of_node", "cell_some", "liveRow_iff", "liveRow_iff_vout", "cell_iout_eq_ioOf", "selected_is_first_live",
+    "input_iout", "mux_current_goes_to_selected", "mux_current_conserved", "no_live_input_all_zero", "depth_of_under",
+    "no_live_input_descendants_zero", "no_live_reports_first_declared", "selection_monotone", "mux_row_power_identity")]
+MODULES = ["SysLoss.Props.C05", "SysLoss.Props.C05System"]
 LEVEL_TEXT = ("Theorems (Lean 4, any ordered field): the mux selects exactly the least input index that is unflagged and at non-zero voltage (none iff no input is live); its output is sign(V_k)(|V_k| - |rs_k| Iout) with rs_k the k-th list entry or the scalar and never inverts or amplifies V_k; its input current is Iout+ig (sleep current when inactive); that current counts towards the output current of the selected input only; the table row names the selected input as parent and shows its voltage. Tied to the code on every run over every live/dead pattern of 1-4 inputs (pattern histogram in the evidence) by certificate comparison of Vin/Vout/Iin/Iout/Parent/Rail in/Domain and by an oracle that recomputes the first live input from the inputs' own rows.")
+LEVEL_TEXT = LEVEL_TEXT + (" Props/C05System states the property END TO END on the cells of the assembled table of any well-formed system (TreeWF, distinct names, one PMux - "
+              "proved for every reachable system by C14Solver): the mux row names the FIRST live input (Vout cell non-zero, not flagged off) as Parent, its rail as Rail in and its Vout as Vin "
+              "(`selected_is_first_live`, any state); in every exact steady state the selected input's Iout cell is the mux's Iin plus its other children's Iin and every other input's Iout is its "
+              "other children only (`mux_current_goes_to_selected`, `mux_current_conserved`); with no live input the mux row and the row of EVERY descendant are all zero "
+              "(`no_live_input_all_zero`, `no_live_input_descendants_zero`); `selection_monotone` (the next live input takes over), `mux_row_power_identity` (Power = |Vin Iin|, "
+              "Loss = Power - |Vout Iout| >= 0). A three-phase five-component example is kernel-checked and agrees with /repo's solve().")
 LEVEL_NOTE = ('Genuine defect found by this check and repaired: the mux row named the parent OF the selected input (fix dfd9166).')
 RULE = ("muxes with 1-4 inputs on the same or different sources, inputs at depth 0-2, every live/dead pattern (0 V sources, "
         "phase-inactive sources or regulators upstream), scalar or per-input on-resistance; non-trivial = the system has a mux; "
